@@ -251,6 +251,8 @@ package segment
 //@   ensures[C04.forceseal-sealed] result1 == nil && len(av(w.offsets)) > 0 ==> w.writer.indexStart > 0 && result0 == w.writer.indexStart
 //@   ensures[C01.forceseal-synced] result1 == nil && old(w.writer.indexStart) == 0 ==> !w.wf.dirty && w.wf.dirLinked
 //@   ensures[C10.forceseal-commitidx] result1 != nil ==> w.commitIdx == old(w.commitIdx)
+//@   ensures[C10.forceseal-rollback] result1 != nil ==> w.writer.indexStart == old(w.writer.indexStart) && sameslice(w.writer.commitBuf, old(w.writer.commitBuf))
+//@      && w.writer.crc == old(w.writer.crc) && w.writer.writeOffset == old(w.writer.writeOffset)
 
 //@ func (*Writer).Sealed
 //@   props C01 C03
